@@ -248,6 +248,144 @@ Proof.
   rewrite Hn, c4_shift, !quad_side_nscale by assumption. ring.
 Qed.
 
+(** *** all four cyclic renumberings of a planar convex quadrilateral
+
+    [pconvex P]: the corner normals at corners 1, 2, 3 are positive multiples of the corner normal
+    at corner 0 (all four corners turn the same way, in one plane).  The renumbered quadrilateral
+    [renum P (cyc j)] has corner [j] of [P] as its corner 0, so the normal [quadq] takes (at corner
+    0) is the corner normal of [P] at corner [j]: a positive multiple of the original one, and a
+    positive factor cancels in every unit vector ([quad_side_nscale]).  The four side terms are
+    permuted cyclically and the measured lengths as a multiset are unchanged. *)
+Definition corner_normal (P : nat -> vec) (i : nat) : vec :=
+  cross (vsub (P ((i + 1) mod 4)%nat) (P i)) (vsub (P ((i + 3) mod 4)%nat) (P i)).
+
+Definition pconvex (P : nat -> vec) : Prop :=
+  exists l1 l2 l3, (0 < l1 /\ 0 < l2 /\ 0 < l3) /\
+    let n0 := cross (vsub (P 1%nat) (P 0%nat)) (vsub (P 3%nat) (P 0%nat)) in
+    cross (vsub (P 2%nat) (P 1%nat)) (vsub (P 0%nat) (P 1%nat)) = vscale l1 n0 /\
+    cross (vsub (P 3%nat) (P 2%nat)) (vsub (P 1%nat) (P 2%nat)) = vscale l2 n0 /\
+    cross (vsub (P 0%nat) (P 3%nat)) (vsub (P 2%nat) (P 3%nat)) = vscale l3 n0.
+
+(** the symmetric reading: every corner normal is a positive multiple of one common vector *)
+Definition pconvex_sym (P : nat -> vec) : Prop :=
+  exists n m0 m1 m2 m3, (0 < m0 /\ 0 < m1 /\ 0 < m2 /\ 0 < m3) /\
+    corner_normal P 0 = vscale m0 n /\ corner_normal P 1 = vscale m1 n
+    /\ corner_normal P 2 = vscale m2 n /\ corner_normal P 3 = vscale m3 n.
+
+Lemma vscale_1 v : vscale 1 v = v.
+Proof. vec_ring. Qed.
+
+Lemma pconvex_iff_sym P : pconvex P <-> pconvex_sym P.
+Proof.
+  unfold pconvex, pconvex_sym, corner_normal. cbn [Nat.add Nat.modulo Nat.divmod fst snd Nat.sub].
+  split.
+  - intros (l1 & l2 & l3 & (H1 & H2 & H3) & E1 & E2 & E3).
+    exists (cross (vsub (P 1%nat) (P 0%nat)) (vsub (P 3%nat) (P 0%nat))), 1, l1, l2, l3.
+    repeat split; try assumption; try lra. symmetry. apply vscale_1.
+  - intros (n & m0 & m1 & m2 & m3 & (H0 & H1 & H2 & H3) & E0 & E1 & E2 & E3).
+    exists (m1 / m0), (m2 / m0), (m3 / m0).
+    split; [repeat split; apply Rdiv_lt_0_compat; assumption|].
+    cbv zeta. rewrite E0, E1, E2, E3, !vscale_vscale.
+    repeat split; f_equal; field; lra.
+Qed.
+
+Definition cyc (j : nat) : perm := map (fun i => (i + j) mod 4)%nat [0; 1; 2; 3]%nat.
+
+(** the cyclically renumbered quadrilateral is again planar and convex (the notion does not
+    depend on which corner is called 0) *)
+Lemma pconvex_shift P : pconvex P -> pconvex (renum P quad_shift).
+Proof.
+  intros (l1 & l2 & l3 & (H1 & H2 & H3) & E1 & E2 & E3). cbv zeta in E1, E2, E3.
+  unfold pconvex, renum, quad_shift, papply. cbn [nth].
+  exists (l2 / l1), (l3 / l1), (/ l1).
+  split; [repeat split; try (apply Rdiv_lt_0_compat; assumption); apply Rinv_0_lt_compat; assumption|].
+  cbv zeta. rewrite E1, E2, E3, !vscale_vscale.
+  repeat split.
+  - f_equal. field. lra.
+  - f_equal. field. lra.
+  - rewrite Rinv_l by lra. symmetry. apply vscale_1.
+Qed.
+
+Lemma quadq_renumber_id k E P nb :
+  edges_ok E (cyc 0) = true ->
+  quadq k E (renum P (cyc 0)) (fun i => nb (papply (cyc 0) i)) = quadq k E P nb.
+Proof.
+  intros HE. unfold quadq. rewrite (aspect_renumber k E (cyc 0) P HE). reflexivity.
+Qed.
+
+Lemma quadq_renumber_shift2 k E P nb lam :
+  edges_ok E (cyc 2) = true -> 0 < lam ->
+  cross (vsub (P 3%nat) (P 2%nat)) (vsub (P 1%nat) (P 2%nat))
+    = vscale lam (cross (vsub (P 1%nat) (P 0%nat)) (vsub (P 3%nat) (P 0%nat))) ->
+  quadq k E (renum P (cyc 2)) (fun i => nb (papply (cyc 2) i)) = quadq k E P nb.
+Proof.
+  intros HE Hl Hn. unfold quadq. rewrite (aspect_renumber k E (cyc 2) P HE).
+  change (cyc 2) with [2; 3; 0; 1]%nat. unfold renum, papply. cbn [nth].
+  rewrite Hn, (c4_shift (P 1%nat) (P 2%nat) (P 3%nat) (P 0%nat)), (c4_shift (P 0%nat)),
+    !quad_side_nscale by assumption.
+  ring.
+Qed.
+
+Lemma quadq_renumber_shift3 k E P nb lam :
+  edges_ok E (cyc 3) = true -> 0 < lam ->
+  cross (vsub (P 0%nat) (P 3%nat)) (vsub (P 2%nat) (P 3%nat))
+    = vscale lam (cross (vsub (P 1%nat) (P 0%nat)) (vsub (P 3%nat) (P 0%nat))) ->
+  quadq k E (renum P (cyc 3)) (fun i => nb (papply (cyc 3) i)) = quadq k E P nb.
+Proof.
+  intros HE Hl Hn. unfold quadq. rewrite (aspect_renumber k E (cyc 3) P HE).
+  change (cyc 3) with [3; 0; 1; 2]%nat. unfold renum, papply. cbn [nth].
+  rewrite Hn, <- (c4_shift (P 3%nat) (P 0%nat) (P 1%nat) (P 2%nat)), !quad_side_nscale by assumption.
+  ring.
+Qed.
+
+(** every cyclic renumbering, every planar convex quadrilateral, any weights, guards, neighbours;
+    [E] any list of measured pairs that the four shifts map onto itself *)
+Theorem quadq_renumber_cyclic k E P nb j :
+  (j < 4)%nat -> forallb (fun i => edges_ok E (cyc i)) [0; 1; 2; 3]%nat = true -> pconvex P ->
+  quadq k E (renum P (cyc j)) (fun i => nb (papply (cyc j) i)) = quadq k E P nb.
+Proof.
+  intros Hj HE (l1 & l2 & l3 & (H1 & H2 & H3) & E1 & E2 & E3). cbv zeta in E1, E2, E3.
+  cbn [forallb] in HE.
+  apply andb_true_iff in HE; destruct HE as [HE0 HE].
+  apply andb_true_iff in HE; destruct HE as [HE1 HE].
+  apply andb_true_iff in HE; destruct HE as [HE2 HE].
+  apply andb_true_iff in HE; destruct HE as [HE3 _].
+  destruct j as [|[|[|[|j]]]]; [| | | |lia].
+  - apply quadq_renumber_id. exact HE0.
+  - change (cyc 1) with quad_shift in *. apply (quadq_renumber_shift k E P nb l1 HE1 H1 E1).
+  - apply (quadq_renumber_shift2 k E P nb l2 HE2 H2 E2).
+  - apply (quadq_renumber_shift3 k E P nb l3 HE3 H3 E3).
+Qed.
+
+(** iterating the generator gives the same renumberings: [j] shifts by one are the shift by [j]
+    (on the four corners), so the direct proof above and the iteration of [quadq_renumber_shift]
+    with [pconvex_shift] agree *)
+Lemma renum_cyc_compose P j i : (i < 4)%nat -> (j < 4)%nat ->
+  renum (renum P (cyc j)) quad_shift i = renum P (cyc ((j + 1) mod 4)) i.
+Proof.
+  intros Hi Hj. unfold renum. f_equal.
+  destruct j as [|[|[|[|j]]]]; [| | | |lia];
+  (destruct i as [|[|[|[|i]]]]; [| | | |lia]); reflexivity.
+Qed.
+
+(** hypotheses are satisfiable: the unit square and a trapezoid (not a parallelogram) *)
+Definition sq_pts : nat -> vec := pts [(0, 0, 0); (1, 0, 0); (1, 1, 0); (0, 1, 0)].
+Definition trapezoid_pts : nat -> vec := pts [(0, 0, 0); (4, 0, 0); (3, 2, 0); (1, 2, 0)].
+Example pconvex_square : pconvex sq_pts.
+Proof.
+  exists 1, 1, 1. split; [lra|]. cbv [sq_pts pts nth]. repeat split; vec_ring.
+Qed.
+Example pconvex_trapezoid : pconvex trapezoid_pts.
+Proof.
+  exists 1, (1 / 2), (1 / 2). split; [lra|]. cbv [trapezoid_pts pts nth]. repeat split; apply vec_eq; vec_simpl; field.
+Qed.
+(** and it is a real restriction: a folded (non-planar) quadrilateral is excluded *)
+Example not_pconvex_folded : ~ pconvex (pts [(0, 0, 0); (1, 0, 0); (1, 1, 1); (0, 1, 0)]).
+Proof.
+  intros (l1 & l2 & l3 & (H1 & H2 & H3) & E1 & _). cbv [pts nth] in E1. cbv zeta in E1.
+  revert E1. vec_simpl. intros E1. injection E1. intros. lra.
+Qed.
+
 (** ** the value depends on the measured pairs only as a set of unordered pairs *)
 Definition edges_same (E E' : list (nat * nat)) : bool :=
   forallb (fun e => valid (fst e) && valid (snd e)) E && forallb (fun e => valid (fst e) && valid (snd e)) E'
@@ -277,3 +415,49 @@ Qed.
 
 Lemma hexq_same_edges k T E E' P nb : edges_same E E' = true -> hexq k T E P nb = hexq k T E' P nb.
 Proof. intros H. unfold hexq. f_equal. apply aspect_same_edges. assumption. Qed.
+
+(** ** without neighbours the value depends on the side table only up to the order of the sides
+    and the starting corner of each side cycle *)
+Definition side_slot (T' : list (list nat)) (l : list nat) : nat :=
+  find_index (fun j => is_shift l (nth j T' [])) (seq 0 (length T')) (length T').
+
+Definition sides_same (T T' : list (list nat)) : bool :=
+  (length T =? length T')%nat
+  && forallb (fun l => length l =? 4)%nat T'
+  && forallb (fun i => (side_slot T' (nth i T []) <? length T')%nat
+                       && is_shift (nth i T []) (nth (side_slot T' (nth i T [])) T' [])) (seq 0 (length T))
+  && nodupb (map (fun i => side_slot T' (nth i T [])) (seq 0 (length T))).
+
+Theorem hexq_same_sides_nb k T T' E P nb : sides_same T T' = true ->
+  hexq k T E P (fun i => nb (side_slot T' (nth i T []))) = hexq k T' E P nb.
+Proof.
+  unfold sides_same. intros H.
+  apply andb_true_iff in H; destruct H as [H Hnd].
+  apply andb_true_iff in H; destruct H as [H Hsides].
+  apply andb_true_iff in H; destruct H as [Hlen Hl4]. apply Nat.eqb_eq in Hlen.
+  unfold hexq. f_equal.
+  set (slot := fun i => side_slot T' (nth i T [])) in *.
+  set (term := fun j => side_term_l k (centre8 P) (nb j) (map P (nth j T' []))).
+  transitivity (rsum (map term (map slot (seq 0 (length T))))).
+  - f_equal. rewrite map_map. apply map_ext_in. intros i Hi.
+    rewrite forallb_forall in Hsides. specialize (Hsides i Hi).
+    apply andb_true_iff in Hsides. destruct Hsides as [Hlt Hsh]. apply Nat.ltb_lt in Hlt.
+    unfold is_shift in Hsh. apply existsb_exists in Hsh. destruct Hsh as [n [Hn Heq]].
+    apply list_beq_eq in Heq. fold (slot i) in Heq. fold (slot i). unfold term. rewrite <- Heq.
+    apply side_term_l_rot; [|assumption].
+    rewrite forallb_forall in Hl4. apply Nat.eqb_eq. apply Hl4. apply nth_In. assumption.
+  - apply rsum_perm. apply Permutation_map. apply c14_perm_seq.
+    + assumption.
+    + rewrite map_length, seq_length. assumption.
+    + rewrite forallb_forall. intros x Hx. apply in_map_iff in Hx. destruct Hx as [i [<- Hi]].
+      rewrite forallb_forall in Hsides. specialize (Hsides i Hi). apply andb_true_iff in Hsides. tauto.
+Qed.
+
+Corollary hexq_same_sides k T T' E P : sides_same T T' = true ->
+  hexq k T E P none_nb = hexq k T' E P none_nb.
+Proof. intros H. exact (hexq_same_sides_nb k T T' E P none_nb H). Qed.
+
+(** the condition is satisfiable by tables that differ: sides reordered and rotated *)
+Example sides_same_reordered :
+  sides_same [[5; 4; 7; 6]; [1; 2; 3; 0]; [4; 0; 3; 7]; [7; 3; 2; 6]; [6; 2; 1; 5]; [4; 5; 1; 0]]%nat ref_T = true.
+Proof. vm_compute. reflexivity. Qed.
